@@ -34,8 +34,26 @@ func putVarintWidth(v uint64, w int) []byte {
 // Returns the mutated bytes and the mutation class (for the evidence histogram).
 func Mutate(t *rapid.T, base []byte, others [][]byte, fieldOffsets []int) ([]byte, string) {
 	b := append([]byte{}, base...)
-	kind := Uniform(t, 12, "mut")
+	kind := Uniform(t, 13, "mut")
 	switch kind {
+	case 12:
+		// a 16-bit length field whose content really is 65536 (or 131072) bytes longer than it says: the field at a hinted
+		// offset is read as uint16 n and that many junk bytes are inserted behind its n content bytes. A decoder that derives
+		// the length from the message size and compares modulo 2^16 takes this for well-formed.
+		if len(fieldOffsets) == 0 || len(b) < 2 {
+			return b, "identity"
+		}
+		pos := pickOffset(t, len(b)-1, fieldOffsets)
+		n := int(b[pos])<<8 | int(b[pos+1])
+		if pos+2+n > len(b) {
+			return b, "identity"
+		}
+		extra := make([]byte, 65536*UniformRange(t, 1, 2, "wraps"))
+		for i := range extra {
+			extra[i] = byte(i*31 + 7)
+		}
+		out := append(append(append([]byte{}, b[:pos+2+n]...), extra...), b[pos+2+n:]...)
+		return out, "length16-wrapped"
 	case 0:
 		return b, "identity"
 	case 1:
